@@ -58,6 +58,8 @@ type LexOpts struct {
 	Macros     bool
 	NoNullable bool // guarantee that no rule matches the empty string
 	BothModeActions bool // some rules inside modes carry both @pop_mode and @push_mode (any order)
+	NonGreedyOps    bool // a third of the * and + are written *? and +?, anywhere in an expression (only for checks whose oracle does not depend on where non-greedy matches end)
+	PopInDefault    bool // rules of the default mode may carry @pop_mode too (popping an empty stack is an error the driver reports; lexing must still end)
 	LoopOnlyModes   bool // some modes consist of a single rule that begins with a loop (X* T, (X Y)* T): after consuming text the machine is back in its start state
 	TwoModeActions  bool // some rules carry two mode actions in a meaningful order: pop then push ("replace the mode"), or two pushes
 	NullablePct int // otherwise: percent of rules left nullable when they come out nullable (default 10)
@@ -169,7 +171,11 @@ func (g *lexGen) expr(depth int) lexspec.Rx {
 		return lexspec.Alt{Alts: alts}
 	case 3, 4:
 		ops := []string{"?", "*", "+"}
-		return lexspec.Card{X: g.expr(depth - 1), Op: ops[r.Intn(3)]}
+		op := ops[r.Intn(3)]
+		if g.o.NonGreedyOps && op != "?" && r.Chance(1, 3) {
+			op += "?"
+		}
+		return lexspec.Card{X: g.expr(depth - 1), Op: op}
 	default:
 		return g.atom()
 	}
@@ -262,6 +268,9 @@ func RandomLexer(r *rng.R, o LexOpts) (*lexspec.Spec, Alphabet) {
 				rule.Name = newTok()
 				emitted = append(emitted, rule.Name)
 			}
+			if !(o.Modes && len(modes) > 0) && !inMode && o.PopInDefault && r.Chance(1, 6) {
+				rule.Actions = insertAt(r, rule.Actions, lexspec.Action{Kind: lexspec.APop})
+			}
 			if o.Modes && len(modes) > 0 {
 				switch {
 				case r.Chance(1, 4):
@@ -287,7 +296,7 @@ func RandomLexer(r *rng.R, o LexOpts) (*lexspec.Spec, Alphabet) {
 					as = append(as, second)
 					as = append(as, rule.Actions[j:]...)
 					rule.Actions = as
-				case inMode && r.Chance(1, 3):
+				case (inMode && r.Chance(1, 3)) || (!inMode && o.PopInDefault && r.Chance(1, 5)):
 					rule.Actions = insertAt(r, rule.Actions, lexspec.Action{Kind: lexspec.APop})
 					if o.BothModeActions && r.Chance(1, 3) {
 						target := modes[r.Intn(len(modes))]
@@ -418,7 +427,14 @@ func fixRunes(s []rune, a Alphabet) []rune {
 // repetition; T: literal of 1-3 characters, possibly self-overlapping, whose
 // characters B may match) plus greedy rules whose first characters are
 // disjoint from P's.
-func NonGreedyLexer(r *rng.R) (*lexspec.Spec, Alphabet) {
+func NonGreedyLexer(r *rng.R) (*lexspec.Spec, Alphabet) { return NonGreedyLexerWith(r, false) }
+
+// NonGreedyLexerWith: with interplay, greedy rules that share the prefix of a
+// non-greedy rule are added (a rule matching exactly the prefix, one matching
+// the prefix and one more character, one running greedily through the text
+// the non-greedy body runs through), and the opener of a non-greedy rule may
+// be a letter of the word rule.
+func NonGreedyLexerWith(r *rng.R, interplay bool) (*lexspec.Spec, Alphabet) {
 	// tiny alphabet so that terminators are frequent
 	pool := []rune{'a', 'b', 'c', '*', '/', '"', 'x', 'é', 0x4E16}
 	perm := r.Perm(len(pool))
@@ -428,6 +444,10 @@ func NonGreedyLexer(r *rng.R) (*lexspec.Spec, Alphabet) {
 		body = append(body, pool[perm[i]])
 	}
 	opener := []rune{'<', '{', '#', '@'}
+	if interplay && r.Chance(1, 3) {
+		opener[0] = body[0]
+	}
+	var extra []lexspec.Rule
 	s := &lexspec.Spec{}
 	alpha := append(Alphabet{}, body...)
 	nNG := r.Range(1, 2)
@@ -485,6 +505,39 @@ func NonGreedyLexer(r *rng.R) (*lexspec.Spec, Alphabet) {
 		rule := lexspec.Rule{Kind: lexspec.RToken, Name: fmt.Sprintf("NG%d", k),
 			Rx: lexspec.Cat{Parts: []lexspec.Rx{p, lexspec.Card{X: b, Op: op}, lexspec.Lit{S: t}}}}
 		s.Entries = append(s.Entries, lexspec.Entry{Rule: &rule})
+		if interplay {
+			one := func(c rune) lexspec.Rx { return lexspec.Class{Items: []lexspec.Item{{Lo: c, Hi: c}}} }
+			if r.Chance(1, 2) {
+				extra = append(extra, lexspec.Rule{Kind: lexspec.RToken, Name: fmt.Sprintf("OPEN%d", k), Rx: lexspec.Lit{S: []rune{open}}})
+			}
+			if r.Chance(1, 3) {
+				extra = append(extra, lexspec.Rule{Kind: lexspec.RToken, Name: fmt.Sprintf("OPENX%d", k), Rx: lexspec.Lit{S: []rune{open, body[r.Intn(len(body))]}}})
+			}
+			if r.Chance(1, 2) {
+				var its []lexspec.Item
+				for _, ch := range body {
+					if r.Chance(2, 3) {
+						its = append(its, lexspec.Item{Lo: ch, Hi: ch})
+					}
+				}
+				if len(its) == 0 {
+					its = append(its, lexspec.Item{Lo: body[0], Hi: body[0]})
+				}
+				op := "+"
+				if r.Chance(1, 3) {
+					op = "*"
+				}
+				extra = append(extra, lexspec.Rule{Kind: lexspec.RToken, Name: fmt.Sprintf("RUN%d", k), Rx: lexspec.Cat{Parts: []lexspec.Rx{one(open), lexspec.Card{X: lexspec.Class{Items: its}, Op: op}}}})
+			}
+		}
+	}
+	for i := range extra {
+		ru := extra[i]
+		if r.Chance(1, 2) {
+			s.Entries = append([]lexspec.Entry{{Rule: &ru}}, s.Entries...)
+		} else {
+			s.Entries = append(s.Entries, lexspec.Entry{Rule: &ru})
+		}
 	}
 	// greedy companions (first characters among the body alphabet, never an opener)
 	id := lexspec.Rule{Kind: lexspec.RToken, Name: "WORD", Rx: lexspec.Card{X: lexspec.Class{Items: []lexspec.Item{{Lo: body[0], Hi: body[0]}, {Lo: body[len(body)-1], Hi: body[len(body)-1]}}}, Op: "+"}}
